@@ -870,6 +870,21 @@ def param_resolver(rng):
     return cirq.ParamResolver(d)
 
 
+def _memory_layout(rng, arr):
+    """the same values in another memory layout (what transposes, Fortran-ordered decoders and strided views hand over)"""
+    r = rng.random()
+    if r < 0.6:
+        return arr
+    if r < 0.75:
+        return np.asfortranarray(arr)
+    if r < 0.9:
+        return np.ascontiguousarray(arr.T).T  # a transposed view: same values, reversed strides
+    big = np.zeros(tuple(2 * d for d in arr.shape), dtype=arr.dtype)
+    view = big[tuple(slice(None, None, 2) for _ in arr.shape)]
+    view[...] = arr
+    return view  # every second element of a larger buffer
+
+
 def result_dict(rng):
     import cirq
     reps = int(rng.integers(1, 6)) if rng.random() < 0.93 else 0
@@ -881,14 +896,14 @@ def result_dict(rng):
             dtype = pick(rng, [np.int8, np.uint8, np.int64, bool, np.int32])
             hi = 2 if rng.random() < 0.7 else 4
             arr = rng.integers(0, hi, size=(reps, width))
-            meas[key] = arr.astype(dtype) if hi == 2 else arr.astype(np.int64)
+            meas[key] = _memory_layout(rng, arr.astype(dtype) if hi == 2 else arr.astype(np.int64))
         return cirq.ResultDict(params=param_resolver(rng), measurements=meas)
     recs = {}
     for key in set(rkeyname(rng) for _ in range(int(rng.integers(1, 4)))):
         width = int(pick(rng, [1, 2, 9, 17]))
         inst = int(pick(rng, [1, 2, 3]))
         dtype = pick(rng, [np.int8, np.uint8, np.int64, bool])
-        recs[key] = rng.integers(0, 2, size=(reps, inst, width)).astype(dtype)
+        recs[key] = _memory_layout(rng, rng.integers(0, 2, size=(reps, inst, width)).astype(dtype))
     return cirq.ResultDict(params=param_resolver(rng), records=recs)
 
 
